@@ -314,7 +314,8 @@ def run(ctx):
     if quick:
         runs = [dict(MaxGrow=1, PoolSel="<-PoolAllSel", Emitting=True), dict(MaxGrow=2, PoolSel="{1, 4, 8, 9, 18}", Emitting=True)]
     else:
-        runs = [dict(MaxGrow=2, PoolSel="{1, 2, 3, 4, 5, 6, 7, 8, 9, 10, 11, 16, 18, 20}", Emitting=True), dict(MaxGrow=3, PoolSel="{1, 8, 9}", Emitting=True)]
+        # (trees grown three times overflow the 32-bit integers of the test interpretation: the thorough tier stays at two)
+        runs = [dict(MaxGrow=2, PoolSel="{1, 2, 3, 4, 5, 6, 7, 8, 9, 10, 11, 16, 18, 20}", Emitting=True)]
     ctx.bounds = {"run%d" % i: {k: v for k, v in consts.items() if k != "Emitting"} for i, consts in enumerate(runs)}
 
     class _R:
